@@ -51,6 +51,7 @@ func init() {
 		"github.com/fatih/color.Green": libPrint,
 	}
 	m["fmt.Sscanf"] = libSscanf
+	m["io.ReadFull"] = libReadFull
 	m["encoding/binary.Read"] = libBinaryRead
 	m["os.Getwd"] = libGetwd
 	m["path/filepath.Rel"] = libRel
@@ -398,8 +399,27 @@ func libReaderRead(g *FuncGen, c *ast.CallExpr, callee *types.Func, st *State) [
 	// the buffer variable now holds the bytes read
 	if id, ok := unparen(c.Args[0]).(*ast.Ident); ok {
 		g.assignTo(id, Val{nb, buf.Ty, "Bytes"}, st)
-	} else {
-		g.fail("Read into a buffer that is not a plain variable")
+	}
+	// a buffer that is not a variable (make(...) in place) cannot be looked at afterwards
+	return []Val{n, err}
+}
+
+// io.ReadFull(r, buf): exactly len(buf) bytes, or an error (io.EOF when nothing was read, io.ErrUnexpectedEOF otherwise)
+func libReadFull(g *FuncGen, c *ast.CallExpr, callee *types.Func, st *State) []Val {
+	r := g.ev(c.Args[0], st)
+	buf := g.ev(c.Args[1], st)
+	rp := g.ghostGet(st, "$rdpos")
+	pos := fmt.Sprintf("(select %s %s)", rp, r.T)
+	rem := fmt.Sprintf("(- (blen (rdContent %s)) %s)", r.T, pos)
+	n := g.freshVal(st, "nread", types.Typ[types.Int])
+	err := g.newErr(st, "readerr")
+	g.assume(st, fmt.Sprintf("(and (<= 0 %s) (<= %s (blen (rdContent %s))))", pos, pos, r.T))
+	g.assume(st, fmt.Sprintf("(= %s (ite (< (blen %s) %s) (blen %s) %s))", n.T, buf.T, rem, buf.T, rem))
+	g.assume(st, fmt.Sprintf("(= (= %s 0) (= %s (blen %s)))", err.T, n.T, buf.T))
+	nb := fmt.Sprintf("(bcat (bsub (rdContent %s) %s (+ %s %s)) (bsub %s %s (blen %s)))", r.T, pos, pos, n.T, buf.T, n.T, buf.T)
+	g.advance(st, r.T, n.T)
+	if id, ok := unparen(c.Args[1]).(*ast.Ident); ok {
+		g.assignTo(id, Val{nb, buf.Ty, "Bytes"}, st)
 	}
 	return []Val{n, err}
 }
